@@ -659,6 +659,11 @@ class Field(Criterion, JSON):
         if self.table is not None:
             yield from self.table.nodes_()
 
+    def __hash__(self) -> int:
+        # Term.__hash__ hashes the rendering, which omits an un-aliased table: columns of the same name in
+        # different tables would collapse into one element of the sets built by fields_()
+        return hash((self.name, self.alias, self.table))
+
     @builder
     def replace_table(  # type:ignore[return]
         self, current_table: "Table" | None, new_table: "Table" | None
